@@ -21,6 +21,17 @@ pub fn parse_id(url: &str, nonce: &str) -> Option<u32> {
     digits.parse().ok()
 }
 
+/// one read, called again when the transport reports a transient `Interrupted` (what read_exact,
+/// read_to_end and every careful caller do)
+fn rd(r: &mut dyn Read, b: &mut [u8]) -> std::io::Result<usize> {
+    loop {
+        match r.read(b) {
+            Err(e) if e.kind() == std::io::ErrorKind::Interrupted => continue,
+            x => return x,
+        }
+    }
+}
+
 pub fn describe(rq: &Request, nonce: &str) -> Delivered {
     Delivered {
         url: rq.url().to_string(),
@@ -129,7 +140,7 @@ fn run_reads(rq: &mut Request, plan: &ReadPlan, d: &mut Delivered) {
                             d.body.extend_from_slice(&v);
                             let mut b = [0u8; 512];
                             loop {
-                                match rq.as_reader().read(&mut b) {
+                                match rd(rq.as_reader(), &mut b) {
                                     Ok(0) => {
                                         d.reads.push(ReadObs { buf: 512, res: Ok(0) });
                                         break;
@@ -154,7 +165,12 @@ fn run_reads(rq: &mut Request, plan: &ReadPlan, d: &mut Delivered) {
                     loop {
                         let r = {
                             let mut bufs = [std::io::IoSliceMut::new(&mut a), std::io::IoSliceMut::new(&mut b)];
-                            rq.as_reader().read_vectored(&mut bufs)
+                            loop {
+                                match rq.as_reader().read_vectored(&mut bufs) {
+                                    Err(e) if e.kind() == std::io::ErrorKind::Interrupted => continue,
+                                    x => break x,
+                                }
+                            }
                         };
                         match r {
                             Ok(0) => {
@@ -181,7 +197,7 @@ fn run_reads(rq: &mut Request, plan: &ReadPlan, d: &mut Delivered) {
         ReadPlan::Sizes(sizes) => {
             for &s in sizes {
                 let mut buf = vec![0u8; s];
-                let r = rq.as_reader().read(&mut buf);
+                let r = rd(rq.as_reader(), &mut buf);
                 match r {
                     Ok(n) => {
                         d.body.extend_from_slice(&buf[..n.min(s)]);
@@ -199,7 +215,7 @@ fn run_reads(rq: &mut Request, plan: &ReadPlan, d: &mut Delivered) {
             let mut b = vec![0u8; s];
             let mut guard = 0usize;
             loop {
-                let r = rq.as_reader().read(&mut b);
+                let r = rd(rq.as_reader(), &mut b);
                 match r {
                     Ok(0) => {
                         d.reads.push(ReadObs { buf: s, res: Ok(0) });
@@ -220,7 +236,7 @@ fn run_reads(rq: &mut Request, plan: &ReadPlan, d: &mut Delivered) {
                 }
             }
             for _ in 0..*extra {
-                let r = rq.as_reader().read(&mut b);
+                let r = rd(rq.as_reader(), &mut b);
                 match r {
                     Ok(n) => {
                         d.body.extend_from_slice(&b[..n.min(s)]);
@@ -392,7 +408,7 @@ pub fn handle_with(mut rq: Request, prog: &Prog, nonce: &str, client_len: usize,
             let mut reads = vec![];
             let mut b = [0u8; 4096];
             loop {
-                match stream.read(&mut b) {
+                match rd(&mut stream, &mut b) {
                     Ok(0) => {
                         reads.push(ReadObs { buf: 4096, res: Ok(0) });
                         break;
